@@ -77,9 +77,10 @@ class Gen:
         self.feats = set()
 
     def fresh(self, b):
-        """a new name.  Digit-free unless the category is `gensym-digits`: utils.Gensym re-checks a bumped
-        name `base<counter>` under a stale hash (finding C12 'Gensym.refresh stale hash'), so a source name
-        with a digit suffix can be handed out again by the pass."""
+        """a new name.  Digit-free unless the category is `gensym-digits`: utils.Gensym used to re-check a bumped
+        name `base<counter>` under a stale hash (finding C12 'Gensym.refresh stale hash', repaired in /repo by
+        5bbcd02), so that a source name with a digit suffix was handed out again by the pass; the category keeps
+        exercising it."""
         self.n += 1
         if self.cat == 'gensym-digits':
             return f'{b}{self.n}'
@@ -628,7 +629,6 @@ KEY_OF_CAT = {
     'with-target': 'inline-with-target-not-renamed',
     'hdr-computed': 'inline-header-argument-context',
     'onelevel-freevar': 'inline-one-level-free-var-clash',
-    'gensym-digits': 'inline-gensym-stale-hash',
     'lift-computed': 'lift-computed-constructor-context',
     'lift-const-var': 'lift-above-constant-variable',
 }
@@ -780,11 +780,11 @@ def run(ck):
                 cur, steps = res[1], steps + 1
             if steps:
                 ck.count('repeated-inline-chains')
-                # the intermediate functions carry generated names `base<counter>`: the only programs of this stream
-                # with digit-suffixed source names, i.e. exposed to the Gensym stale-hash clash
+                # the intermediate functions carry generated names `base<counter>` (digit-suffixed source names for
+                # the next pass: the Gensym stale-hash clash, repaired in /repo by 5bbcd02, showed here)
                 run_pair(main, cur, argsl[:3], callers,
                          'repeated one-site inlining changed the result of a function',
-                         'inline-gensym-stale-hash', {'strategy': f'inline(.., 0, recursive=False) x {steps}', 'category': cat, 'program': src,
+                         None, {'strategy': f'inline(.., 0, recursive=False) x {steps}', 'category': cat, 'program': src,
                                 'transformed': cur.format()})
     ck.log(f'inline: {len(cases)} structural cases, {stats["beh_runs"]} runs in {time.time() - t0:.1f}s')
 
@@ -958,8 +958,7 @@ def run(ck):
         out = ck.coq_eval_raw(HEADER, f'model9 {cases[i]}', name=f'diag_{i:05d}', timeout=300) if k < 4 else '(not computed)'
         # categories whose defect shows in the structure itself: a generated name that is already taken
         # (the model's gensym is fresh by construction)
-        key = {'gensym-digits': 'inline-gensym-stale-hash',
-               'onelevel-freevar': 'inline-one-level-free-var-clash'}.get(meta.get('category'))
+        key = {'onelevel-freevar': 'inline-one-level-free-var-clash'}.get(meta.get('category'))
         ck.violation('the output of the real strategy is not the output of the Gallina model (up to renaming), or a refusal does '
                      'not coincide with the model\'s None', dict(meta, model_says=out[-2500:]), key=key)
     nf, err2 = ck.coq_eval_mismatches(HEADER, 'case9', cases, 'frag9', chunk=chunk, timeout=1200, tag='frag')
